@@ -35,7 +35,7 @@ func (d debugging) Printf(format string, args ...interface{}) {
 const (
 	IPv4MinimumFragmentSize    = 8     // Minimum size of a single fragment
 	IPv4MaximumSize            = 65535 // Maximum size of a fragment (2^16)
-	IPv4MaximumFragmentOffset  = 8183  // Maximum offset of a fragment
+	IPv4MaximumFragmentOffset  = 8189  // Maximum offset of a fragment ((65535 - 20 - 1) / 8)
 	IPv4MaximumFragmentListLen = 8192  // Back out if we get more than this many fragments
 )
 
